@@ -59,7 +59,7 @@ def _ob(kind, switches=False):
         b = bank_of(I)
         x = I.sym('x1', lo=1, hi=U128 // 4)
         y = I.sym('y1', lo=1, hi=U128 // 4)
-        S = I.sym('S1', lo=MINLIQ + 1, hi=U128 // 4)
+        S = I.sym('S1', lo=MINLIQ, hi=U128 // 4)
         put_pool(I, pool_info('p1', ['uA', 'uB'], [6, 6], [x, y], xyk(), param_fees(I), status=pool_status(sw, dep, wd)))
         b.set(PM, 'uA', x)
         b.set(PM, 'uB', y)
